@@ -6,6 +6,7 @@ package pipelinex
 import (
 	"archive/zip"
 	"bytes"
+	"encoding/binary"
 	"fmt"
 	"io"
 	"strings"
@@ -54,6 +55,8 @@ func applyVariant(typ, variant string, src []byte, base string) []byte {
 		}
 		zw.Close()
 		return buf.Bytes()
+	case typ == "cab" && variant == "datareserve":
+		return cabWithDataReserve(src, 4)
 	case (typ == "pe-dll" || typ == "pe-exe") && variant == "tweaked":
 		// a different image: one byte of section data changed
 		out := append([]byte(nil), src...)
@@ -81,4 +84,77 @@ func applyVariant(typ, variant string, src []byte, base string) []byte {
 		return out
 	}
 	panic("unknown variant " + typ + "/" + variant)
+}
+
+// cabWithDataReserve rewrites a cabinet without reserved areas into an equivalent one whose header reserves 24 zero
+// bytes (room for a signature) and declares n reserved bytes per data block ([MS-CAB] cbCFData), which the data
+// blocks then carry (zero bytes): a well-formed but unusual layout. Offsets, the cabinet size and the block checksums are recomputed.
+func cabWithDataReserve(src []byte, n int) []byte {
+	le16 := func(b []byte, o int) int { return int(binary.LittleEndian.Uint16(b[o:])) }
+	le32 := func(b []byte, o int) int { return int(binary.LittleEndian.Uint32(b[o:])) }
+	if len(src) < 36 || string(src[:4]) != "MSCF" || le16(src, 30)&4 != 0 {
+		panic("cabWithDataReserve: need a cabinet without reserve header")
+	}
+	coffFiles, nFolders, flags := le32(src, 16), le16(src, 26), le16(src, 30)
+	pos := 36
+	skipStr := func() {
+		for src[pos] != 0 {
+			pos++
+		}
+		pos++
+	}
+	if flags&1 != 0 {
+		skipStr()
+		skipStr()
+	}
+	if flags&2 != 0 {
+		skipStr()
+		skipStr()
+	}
+	foldersAt := pos
+	type fold struct{ start, nblocks int }
+	var folds []fold
+	for f := 0; f < nFolders; f++ {
+		folds = append(folds, fold{le32(src, pos), le16(src, pos+4)})
+		pos += 8
+	}
+	firstData := len(src)
+	for _, f := range folds {
+		if f.start < firstData {
+			firstData = f.start
+		}
+	}
+	// everything before the first data block, with the 4-byte reserve header inserted after the fixed header
+	out := append([]byte{}, src[:36]...)
+	// cbCFHeader = 24 zero bytes (room reserved for a signature, as a cabinet made "ready for signing" carries),
+	// cbCFFolder = 0, cbCFData = n
+	out = append(out, 24, 0, 0, byte(n))
+	out = append(out, make([]byte, 24)...)
+	out = append(out, src[36:firstData]...)
+	foldersAt += 28
+	binary.LittleEndian.PutUint16(out[30:], uint16(flags|4))
+	binary.LittleEndian.PutUint32(out[16:], uint32(coffFiles+28))
+	// data blocks, folder by folder (assumed laid out in folder order)
+	for fi, f := range folds {
+		binary.LittleEndian.PutUint32(out[foldersAt+8*fi:], uint32(len(out)))
+		bp := f.start
+		for b := 0; b < f.nblocks; b++ {
+			cb := le16(src, bp+4)
+			hdr := append([]byte{}, src[bp+4:bp+8]...)
+			hdr = append(hdr, make([]byte, n)...)
+			data := src[bp+8 : bp+8+cb]
+			csum := uint32(0)
+			if le32(src, bp) != 0 {
+				csum = cabChecksum(data, cabChecksum(hdr, 0))
+			}
+			var cs [4]byte
+			binary.LittleEndian.PutUint32(cs[:], csum)
+			out = append(out, cs[:]...)
+			out = append(out, hdr...)
+			out = append(out, data...)
+			bp += 8 + cb
+		}
+	}
+	binary.LittleEndian.PutUint32(out[8:], uint32(len(out)))
+	return out
 }
